@@ -547,3 +547,33 @@ M('c18-to-hashable-no-bool', ['C18', 'C07'], ['R18.3', 'R7.6'], [(JU,
 M('c18-is-equal-no-len', ['C18', 'C07'], ['R18.5', 'R7.6'], [(JU,
   "            if ((class2 != list and class2 != tuple) or\n                    len(value1) != len(value2)):\n                return False",
   "            if (class2 != list and class2 != tuple):\n                return False")])
+
+# ---- later additions ---------------------------------------------------------
+M('c05-overlay-not-started', ['C05', 'C01'], ['R5.6', 'R1.4'], [(FB,
+  "        created_files.started_building_file(filename)\n\n"
+  "        if not self._are_suboperations_cached(operation, created_files):",
+  "        if not self._are_suboperations_cached(operation, created_files):")])
+M('c05-overlay-closed-wrong-way', 'C05', 'R5.6', [(FB,
+  "        if operation.raised:\n            created_files.error_building_file(filename)\n"
+  "        else:\n            created_files.finished_building_file(filename)\n        return True",
+  "        if not operation.raised:\n            created_files.error_building_file(filename)\n"
+  "        else:\n            created_files.finished_building_file(filename)\n        return True")])
+M('c08-repeat-test-skips-build-file-subtrees', 'C08', 'R8.2b', [(CA,
+  "        for suboperation in operation.suboperations:\n"
+  "            if isinstance(suboperation, ComplexOperation):\n"
+  "                self._assert_no_repeats(suboperation)",
+  "        for suboperation in operation.suboperations:\n"
+  "            if isinstance(suboperation, SubbuildOperation):\n"
+  "                self._assert_no_repeats(suboperation)")])
+M('c16-serialiser-skips-raised-children', 'C16', 'R16.6', [(CA,
+  "        for suboperation in operation.suboperations:\n"
+  "            suboperations_json.append(self._operation_to_json(suboperation))",
+  "        for suboperation in operation.suboperations:\n"
+  "            if isinstance(suboperation, SimpleOperation) and \\\n"
+  "                    suboperation.exception_type_str is not None:\n"
+  "                continue\n"
+  "            suboperations_json.append(self._operation_to_json(suboperation))")])
+M('c16-non-root-from-files-only', 'C16', 'R16.6', [(CA,
+  "        for operation in operations:\n            non_root_operations.update(operation.suboperations)",
+  "        for operation in operations:\n            if operation.suboperations:\n"
+  "                non_root_operations.update(operation.suboperations[:1])")])
